@@ -199,6 +199,23 @@ func (c *Ctx) foundPtr(v ssa.Value, id ssa.Value, at *ssa.BasicBlock, depth int)
 		if g == nil || !eng.InModule(g) || g.Blocks == nil {
 			return false
 		}
+		// a runner hands back what the callback it is given returns (found := inMailbox(s, box,
+		// mode, func(mb *mbox) *Message { return mb.messages[id] })): the message is looked up
+		// in the callback, which captures the id
+		if pi := eng.RunnerParam(g); pi >= 0 && pi < len(x.Call.Args) {
+			if h, _, isFn := eng.FuncValueOf(x.Call.Args[pi]); isFn && h != nil && len(h.Blocks) > 0 {
+				okAll, n := true, 0
+				eng.EachInstr(h, func(in ssa.Instruction) {
+					if ret, ok := in.(*ssa.Return); ok && in.Parent() == h && len(eng.ReturnResults(ret)) == 1 {
+						n++
+						if !c.foundPtr(eng.ReturnResults(ret)[0], id, ret.Block(), depth+1) {
+							okAll = false
+						}
+					}
+				})
+				return okAll && n > 0
+			}
+		}
 		// which parameter receives id?
 		var gid ssa.Value
 		for i, a := range x.Call.Args {
